@@ -36,7 +36,8 @@ def gen_cases(tier, seed):
     cases = []
     nh = {"quick": 80, "thorough": 900}[tier]
     for kind in KINDS:
-        for i in range(nh):
+        # (the Redis consumer has the most state of its own - prefetch task, local queue, pause lock: three times the histories)
+        for i in range(nh * 3 if kind == "redis" and tier == "quick" else nh):
             lat = None if kind == "mem" else [None, 0.002, ["rand", 0.02]][i % 3]
             cases.append({"type": "history", "kind": kind, "seed": seed * 1_000_003 + i, "nops": 30 + (i * 7) % 50, "latency": lat})
     pres = {"quick": ["fresh"], "thorough": ["fresh", "after_reject", "delayed_take", "dead_take"]}[tier]
